@@ -332,4 +332,66 @@ theorem cg_mergesOnJT_of_one {L : LPat}
   have := hsz t0 hnew
   omega
 
+/-- the path `0 — 1 — 2`: columns `{1}`, `{2}`, `{}`; cliques `{0,1}` and `{1,2}` -/
+def exP3 : LPat := { n := 3, colptr := #[0, 1, 2, 2], rowval := #[1, 2] }
+
+/-- [S] the path is a filled pattern -/
+theorem exP3_filled : exP3.Filled := (LPat.filledB_iff _).1 (by decide)
+
+/-- [S] the supernode tree of the path has at most two cliques: vertex `2` cannot be a
+representative (its child `1` has a column count one larger), and different supernodes have
+different representatives -/
+theorem exP3_size_le : ∀ t0, SuperNodeTree.new exP3 = .ok t0 → t0.snode.size ≤ 2 := by
+  intro t0 hnew
+  obtain ⟨t0', hnew', hok⟩ := sntree_new_ok exP3_filled
+  rw [hnew] at hnew'
+  obtain rfl := Except.ok.inj hnew'
+  have hmax := sntree_new_max exP3_filled hnew
+  let reps := (List.range t0.snode.size).map (fun i => minOf (t0.snode.getD i #[]))
+  have hmemsn : ∀ i, i < t0.snode.size → t0.snode.getD i #[] ∈ t0.snode.toList :=
+    fun i hi => snp_getD_mem_toList _ _ hi
+  have hso : ∀ i (hi : i < t0.snode.size),
+      SnodeOf exP3 (t0.snode.getD i #[]).toList (minOf (t0.snode.getD i #[])) :=
+    fun i hi => hok.cover.snode_of _ (hmemsn i hi)
+  have hnd : reps.Nodup := by
+    refine List.Nodup.map_on ?_ List.nodup_range
+    intro i hi j hj hij
+    by_contra hne
+    have hi' := List.mem_range.1 hi
+    have hj' := List.mem_range.1 hj
+    have h1 := (hso i hi').rep_mem
+    have h2 := (hso j hj').rep_mem
+    rw [hij] at h1
+    exact hok.cover.disjoint i j hi' hj' hne _ h1 h2
+  have hsub : reps ⊆ [0, 1] := by
+    intro r hr
+    obtain ⟨i, hi, rfl⟩ := List.mem_map.1 hr
+    have hi' := List.mem_range.1 hi
+    have hlt : minOf (t0.snode.getD i #[]) < 3 := (hso i hi').lt _ (hso i hi').rep_mem
+    have hne2 : minOf (t0.snode.getD i #[]) ≠ 2 := by
+      intro e
+      have := hmax _ (hmemsn i hi') 1 (by decide) (by rw [e]; decide)
+      rw [e] at this
+      exact this (by decide)
+    have : minOf (t0.snode.getD i #[]) = 0 ∨ minOf (t0.snode.getD i #[]) = 1 := by omega
+    rcases this with h | h
+    · rw [h]; exact List.mem_cons_self
+    · rw [h]; exact List.mem_cons_of_mem _ List.mem_cons_self
+  have := (hnd.subperm hsub).length_le
+  simpa [reps] using this
+
+/-- [S] conversely the proposition `CGExitNonempty L` makes the executable check `cgNonemptyB L`
+come out `true` (on a filled pattern `merge_cliques` does not panic) -/
+theorem cgNonemptyB_of_exit {L : LPat} (hf : L.Filled) (h : CGExitNonempty L) :
+    cgNonemptyB L = true := by
+  obtain ⟨t0, hnew, hok⟩ := sntree_new_ok hf
+  unfold cgNonemptyB
+  rw [hnew]
+  by_cases hgt : t0.nCliques > 1
+  · have h2 : 2 ≤ t0.snode.size := by rw [← hok.ncl]; omega
+    obtain ⟨t', hmc⟩ := merge_cliques_cg_no_panic hf hok h2
+    simp only [hgt, if_true, hmc]
+    exact h t0 t' hnew hgt hmc
+  · simp only [hgt, if_false]
+
 end Clarabel.Chordal
